@@ -17,7 +17,7 @@ use dukebox::storage::{ClassRepr, IsClass, JarEntryEnum, ParsedJar};
 use dukenest::nest::{Nest, NestType, Nests};
 use java_string::JavaString;
 use quill::tree::mappings::Mappings;
-use refclass::Sem;
+use refclass::{JStr, Sem};
 use serde_json::json;
 use std::collections::{BTreeMap, BTreeSet};
 use std::marker::PhantomData;
@@ -591,8 +591,27 @@ impl Engine for C14 {
                     }
                     st.probe("t0.nest_jar_ok");
                     if reference.created_is_listed {
-                        // under-determined (see assumptions): executed for panics only, not judged
+                        // under-determined (see assumptions): the names are not judged. One thing the property does decide
+                        // even here: "creates enclosing classes that are missing" - a class that came out under a new
+                        // name records its enclosing class (own InnerClasses entry with an outer class), and that class has to be an entry of the nested jar (missed seeded change C14-9)
                         st.probe("corner.created_enclosing_is_listed.not_judged");
+                        for (name, e) in &o {
+                            let (Obs::Class(b), Some(stem)) = (e, name.strip_suffix(".class")) else { continue };
+                            if entries.iter().any(|(n, _)| n == name) {
+                                continue;
+                            }
+                            let Ok(sem) = refclass::parse(b) else { continue };
+                            let this = JStr::from_str(stem);
+                            // (an EnclosingMethod attribute may have been there before and name a class outside the jar: only
+                            // the InnerClasses entry under the NEW name is certainly the nester's)
+                            let enclosing: Vec<JStr> = sem.inner_classes.iter().flatten().filter(|ic| ic.inner == this).filter_map(|ic| ic.outer.clone()).collect();
+                            for encl in enclosing {
+                                let want = format!("{}.class", encl.to_str().unwrap_or_else(|| encl.to_string_lossy()));
+                                if !o.contains_key(&want) {
+                                    out.push(Violation::new("T0", "semantic-mismatch", "jar.enclosing-class-of-nested-class.missing", format!("{name} records the enclosing class {want}, which is not in the nested jar")));
+                                }
+                            }
+                        }
                     } else {
                         let j = Judge { tier: "T0", class: "semantic-mismatch", stage: "jar".into() };
                         judge_jar(&j, &o, &reference, &entries, st, &mut out);
